@@ -1054,6 +1054,16 @@ func (b *BMC) script(query string, K int) (string, map[string]string) {
 	if query != "race" {
 		b.emitPOR(&sb, K)
 	}
+	// symmetry: instances of one template are interchangeable, so the one with
+	// the smaller index makes its first move first
+	for _, bt := range b.tmpls {
+		for j := bt.first; j+1 < bt.first+bt.instN; j++ {
+			for k := 0; k < K; k++ {
+				w("(assert (=> (and (not st_%d) (= pc_%d_%d %s) (or (= ti_%d %s) (and (not (= pe_%d %s)) (= pi_%d %s)))) (not (= pc_%d_%d %s))))",
+					k, j+1, k, bv(pcW, 1), k, bv(inW, j+1), k, bv(edW, 0), k, bv(inW, j+1), j, k, bv(pcW, 1))
+			}
+		}
+	}
 	// terminal-node predicates
 	var failReach, cutReach, notDone []string
 	for k := 0; k <= K; k++ {
@@ -1069,6 +1079,28 @@ func (b *BMC) script(query string, K int) (string, map[string]string) {
 				}
 			}
 		}
+	}
+	label := ""
+	if strings.HasPrefix(query, "bad:") {
+		label = strings.TrimPrefix(query, "bad:")
+		query = "bad"
+		var sel []string
+		if label == "primitive" {
+			sel = badTerms
+		} else if strings.HasPrefix(label, "prim:") {
+			for _, f := range badTerms {
+				if flagDescr[f] == strings.TrimPrefix(label, "prim:") {
+					sel = append(sel, f)
+				}
+			}
+		} else {
+			for _, f := range failReach {
+				if strings.HasSuffix(flagDescr[f], ": "+label) {
+					sel = append(sel, f)
+				}
+			}
+		}
+		failReach, badTerms = sel, nil
 	}
 	switch query {
 	case "bad":
@@ -1336,6 +1368,52 @@ func (b *BMC) Dump() string {
 		}
 	}
 	return sb.String()
+}
+
+// PrimitiveLabels lists the run-time misuse checks of the model (send on or
+// close of a closed channel, unlock of an unlocked mutex, negative WaitGroup).
+func (b *BMC) PrimitiveLabels() []string {
+	set := map[string]bool{}
+	for _, bt := range b.tmpls {
+		for _, e := range bt.edges {
+			ev := e.ev
+			role, isChan := roleOf(ev)
+			switch {
+			case isChan && role.send && !role.isDeflt:
+				set["send on closed channel "+role.ch+" at "+ev.Pos] = true
+			case ev.Kind == "close":
+				set["close of closed channel "+ev.Obj+" at "+ev.Pos] = true
+			case ev.Kind == "unlock":
+				set["unlock of unlocked mutex "+ev.Obj+" at "+ev.Pos] = true
+			case ev.Kind == "wgadd":
+				set["negative WaitGroup counter "+ev.Obj+" at "+ev.Pos] = true
+			}
+		}
+	}
+	var out []string
+	for l := range set {
+		out = append(out, l)
+	}
+	sort.Strings(out)
+	return out
+}
+
+// Labels lists the assertion / panic messages that occur in the model.
+func (b *BMC) Labels() []string {
+	set := map[string]bool{}
+	for _, bt := range b.tmpls {
+		for node, kind := range bt.term {
+			if kind == "fail" || kind == "panic" {
+				set[bt.msg[node]] = true
+			}
+		}
+	}
+	var out []string
+	for l := range set {
+		out = append(out, l)
+	}
+	sort.Strings(out)
+	return out
 }
 
 // Describe summarises the model for evidence.
